@@ -31,7 +31,7 @@ CLAIMS = {
   ref="DESIGN.md §4 C04"),
  "C05": dict(
   text="Deductive proof that State.popResponders releases everything in order when expunges are permitted and otherwise releases no *expunge responder, holds back only *expunge/*targetedExists responders, loses or duplicates nothing (count) and keeps every expunge queued; plus whole-module syntactic obligations: only expunge.handle may construct an EXPUNGE response, flush(…, permitExpunge=true) may only be called from the handlers of commands that permit EXPUNGE, State.flushResponses(…, true) only from beginIdle / Mailbox.Flush; every implementation of Responder.getMessageID is effect-free.",
-  note="Assumes session confinement (C19). Mailbox.ExpungeIssued is proved to answer exactly 'an *expunge responder is queued'. response.Merge keeps every EXPUNGE response (see C01). Undecided: order preservation inside pop/rem beyond the counted partition, the held-exists-after-held-expunge rule, that every FETCH/STORE/SEARCH handler consults ExpungeIssued, responder handle bodies.",
+  note="Assumes session confinement (C19). State.flushResponses is proved to return no EXPUNGE response when expunges are not permitted (the call of Responder.handle is resolved over its three implementations - closed world, unexported method - each proved to produce an EXPUNGE only if it is the *expunge responder; Merge adds none). The handlers of CHECK, EXPUNGE, UID EXPUNGE, CLOSE and MOVE are proved to flush with permitExpunge; FETCH, STORE and SEARCH put [EXPUNGEISSUED] into their OK exactly when an *expunge responder is queued. Mailbox.ExpungeIssued is proved to answer exactly 'an *expunge responder is queued'. response.Merge keeps every EXPUNGE response (see C01). In the handler contracts callee preconditions are assumed (nosafety pre) and closure bodies are not verified. Undecided: order preservation inside pop/rem beyond the counted partition, the held-exists-after-held-expunge rule, the flushes NOOP / STATUS / APPEND issue from inside closures, IDLE (goroutines).",
   ref="DESIGN.md §4 C05"),
  "C08": dict(
   text="Deductive proof, for all list lengths, of the Go side of all read/write operations of the SQLite implementation (69 functions): placeholder/argument agreement of every statement, chunk arguments, GenSQLIn called with a positive count, result accumulation loops, no open safety obligation. The SQL strings are not interpreted.",
